@@ -177,6 +177,18 @@ class P:
             at = self.attrs()
             hooks = any("verif-hooks" in a for a in at) or any(cfg_false(a) for a in at)
             k, v = self.peek()
+            if v == "const" and k == "id" and self.peek(1)[0] == "id" and self.peek(2)[1] == ":":
+                # `const NAME: T = expr;` inside a body: evaluated where it is used -- a `let`
+                self.eat("const")
+                name = self.eat()[1]
+                self.eat(":")
+                self.ty()
+                self.eat("=")
+                e = self.expr()
+                self.eat(";")
+                if not hooks:
+                    stmts.append(("let", name, e))
+                continue
             if v in ("fn", "struct", "impl", "const", "use", "enum", "static") and k == "id" and not (v == "const" and self.peek(1)[1] == "{"):
                 self.item()
                 continue
@@ -657,10 +669,23 @@ class Lower:
         self.rename = rename or {}      # method names resolved by type in Rust (`extend` on different item types)
         self.field_ok = False           # heap_buffer.rs: plain field reads / writes are translated
         self.self_ns = "Repr"           # namespace of `self.method(..)` (Repr / HeapBuffer)
+        self.arrays = set()             # locals that hold a `[u8; N]` value
 
     def fresh(self):
         self.n += 1
         return f"t{self.n}"
+
+    def is_array_value(self, e):
+        """`[x; n]`, or a block / deref / cast whose value is a `[u8; N]` read through a pointer"""
+        if e[0] == "call" and e[1] == ("path", ["array_repeat"]):
+            return True
+        if e[0] == "block" and e[2] is not None:
+            return self.is_array_value(e[2])
+        if e[0] == "deref":
+            return self.is_array_value(e[1])
+        if e[0] == "cast" and re.match(r"^\* (const|mut) \[ u8 ; \d+ \]$", e[2]):
+            return True
+        return False
 
     def is_self(self, e):
         if e == ("path", ["self"]):
@@ -688,12 +713,33 @@ class Lower:
             if p == ["isize", "MAX"]:
                 return k("isize_MAX")
             return k(".".join(getattr(self, "self_ty", "Repr") if x == "Self" else x for x in p))
+        if t == "str":
+            # a string literal, as its bytes
+            lit = eval(e[1]) if e[1].startswith('"') else None
+            if not isinstance(lit, str):
+                raise Bad("string literal")
+            return k("(Str.lit [" + ", ".join(str(b) for b in lit.encode("utf-8")) + "])")
         if t == "deref":
             return self.ex(e[1], k, ind)
         if t == "cast":
             ty = e[2]
-            if ty in ("usize", "u64", "u128") or ty.startswith(("*", "&")):
-                return self.ex(e[1], k, ind)          # widening / pointer casts: the value is unchanged
+            if ty.startswith("*") and e[1] == ("path", ["self"]) and not self.self_field:
+                # `self as *const _` / `self as *mut _`: a pointer to the value's own bytes
+                if ty not in ("* const _", "* mut _"):
+                    raise Bad(f"cast of self to {ty}")
+                return self.bindc(f"{self.self_ns}.self_ptr", k, ind)
+            if ty.startswith("*"):
+                pointee = re.sub(r"^\* (const|mut) ", "", ty)
+                if pointee in ("_", "u8", "( )"):
+                    return self.ex(e[1], k, ind)      # the address is unchanged and so is the unit of `add`/`sub`
+                name = {"usize": "usize", "[ u8 ; 8 ]": "bytes8"}.get(pointee)
+                if name is None:
+                    if not self.field_ok or not re.match(r"^[A-Z]\w*$", pointee):
+                        raise Bad(f"pointer cast to {pointee}")
+                    return self.ex(e[1], k, ind)      # heap_buffer.rs: `as *mut Header` etc., sized by the runtime's primitives
+                return self.ex(e[1], lambda a: self.bindc(f"{a}.rs_cast_{name}", k, ind), ind)
+            if ty in ("usize", "u64", "u128") or ty.startswith("&"):
+                return self.ex(e[1], k, ind)          # widening casts: the value is unchanged
             bits = {"u8": 8, "u16": 16, "u32": 32}.get(ty)
             if bits is None:
                 raise Bad(f"cast to {ty}")
@@ -701,6 +747,8 @@ class Lower:
         if t == "field":
             if self.is_self(e[1]) and e[2] == "0":
                 return self.bindc("Repr.field_0", k, ind)
+            if self.is_self(e[1]) and e[2] == "2" and not self.self_field and self.self_ns == "Repr":
+                return self.bindc("Repr.field_2", k, ind)
             if self.field_ok:
                 # heap_buffer.rs: `self.ptr`, `self.len`, `buf.ptr`, `x.capacity` are reads of plain fields
                 if e[1] == ("path", ["self"]):
@@ -737,6 +785,8 @@ class Lower:
                         return k(f"({a} ||| {b})")
                     if op == "&":
                         return k(f"({a} &&& {b})")
+                    if op == "^":
+                        return k(f"({a} ^^^ {b})")
                     raise Bad(f"operator {op}")
                 return self.ex(e[3], after2, ind)
             return self.ex(e[2], after, ind)
@@ -764,6 +814,15 @@ class Lower:
                 cb = cl[2] if cl[2][0] == "block" else ("block", [("expr", cl[2])], None)
                 body = self.block(cb, lambda a: "Rt.pure ()", ind + 2)
                 return self.ex(recv, lambda it: self.bindc(f"{it}.rs_for_each (fun {ident(cl[1])} =>\n{'  ' * (ind + 2)}{body})", k, ind), ind)
+            if len(args) == 1 and args[0][0] == "range":
+                a, b = args[0][1], args[0][2]
+                if a is None and b is not None:
+                    return self.ex(("mcall", recv, name + "_to", [b]), k, ind)
+                if a is not None and b is None:
+                    return self.ex(("mcall", recv, name + "_from", [a]), k, ind)
+                if a is not None and b is not None:
+                    return self.ex(("mcall", recv, name + "_range", [a, b]), k, ind)
+                raise Bad("full range argument")
             if self.is_self(recv):
                 head = f"{self.self_ns}.{self.rename.get(name, name)}"
                 wrap = head in self.generated
@@ -796,7 +855,7 @@ class Lower:
                 name, args = "index", [idx]
             return self.ex(("mcall", recv, name, args), k, ind)
         if t == "struct":
-            name = ".".join("Repr" if x == "Self" else x for x in e[1]) + ".mk"
+            name = ".".join(getattr(self, "self_ty", "Repr") if x == "Self" else x for x in e[1]) + ".mk"
             return self.args([fv for _, fv in e[2]], lambda as_: self.bindc(self.app(name, as_, False), k, ind), ind)
         if t == "tuple":
             return self.args(e[1], lambda as_: k("(" + ", ".join(as_) + ")"), ind)
@@ -903,6 +962,8 @@ class Lower:
                         pad = "  " * ind
                         return (f"Rt.bind (Repr.assign {a}) fun _ =>\n{pad}dropOnUnwind (LeanString.drop) (\n{pad}  {rest})")
                     return self.ex(rhs, own, ind)
+                if self.is_array_value(rhs):
+                    self.arrays.add(s[1])
                 return self.ex(s[2], lambda a: (f"Rt.bind (Rt.pure {a}) fun {v} =>\n{'  ' * ind}{go(i + 1)}"), ind)
             if s[0] == "lettuple":
                 pat = "(" + ", ".join(ident(n) for n in s[1]) + ")"
@@ -916,10 +977,24 @@ class Lower:
                     thenb = self.block(("block", s[1][2][1], None), lambda _: f"Rt.pure {tup}", ind + 2)
                     return (f"Rt.bind (ifM {c} (\n{pad}    {thenb})\n{pad}  (Rt.pure {tup})) fun {tup} =>\n{pad}{go(i + 1)}")
                 return self.ex(s[1][1], after, ind)
+            if (s[0] == "expr" and s[1][0] == "call" and s[1][1] == ("path", ["ptr", "copy_nonoverlapping"]) and len(s[1][2]) == 3
+                    and s[1][2][1][0] == "mcall" and s[1][2][1][2] == "as_mut_ptr" and s[1][2][1][1][0] == "path"
+                    and len(s[1][2][1][1][1]) == 1 and s[1][2][1][1][1][0] in self.arrays):
+                # `ptr::copy_nonoverlapping(src, buffer.as_mut_ptr(), n)` into a local array: rebinds it
+                arr = s[1][2][1][1][1][0]
+                return self.args([s[1][2][0], s[1][2][2]], lambda as_: (
+                    f"Rt.bind (ptr.copy_nonoverlapping_local {as_[0]} {ident(arr)} {as_[1]}) fun {ident(arr)} =>\n{'  ' * ind}{go(i + 1)}"), ind)
             if s[0] == "expr":
                 return self.ex(s[1], lambda a: go(i + 1), ind)
             if s[0] == "assign":
                 lhs = s[1]
+                if lhs[0] == "index" and lhs[1][0] == "path" and len(lhs[1][1]) == 1 and lhs[1][1][0] in self.arrays and lhs[2][0] != "range":
+                    # `buffer[i] = v` on a local array: rebind
+                    arr = ident(lhs[1][1][0])
+                    return self.args([lhs[2], s[2]], lambda as_: (
+                        f"Rt.bind ({arr}.rs_index_set {as_[0]} {as_[1]}) fun {arr} =>\n{'  ' * ind}{go(i + 1)}"), ind)
+                if self.field_ok and lhs[0] == "index" and lhs[1] == ("field", ("path", ["self"]), "0") and lhs[2][0] != "range":
+                    return self.args([lhs[2], s[2]], lambda as_: self.bindc(f"{self.self_ns}.set_byte {as_[0]} {as_[1]}", lambda _: go(i + 1), ind), ind)
                 if lhs[0] == "deref" and self.is_self(lhs[1]):
                     return self.ex(s[2], lambda a: self.bindc(f"{self.self_ns}.assign {a}", lambda _: go(i + 1), ind), ind)
                 if self.field_ok and lhs[0] == "field" and lhs[1] == ("path", ["self"]):
@@ -988,6 +1063,21 @@ TARGETS = [
     ("repr/heap_buffer.rs", "impl HeapBuffer", "is_unique", "HeapBuffer.is_unique_body", False, {"ns": "HeapBuffer", "trust_sig": True, "self_ty": "HeapBuffer"}),
     ("repr/heap_buffer.rs", "impl HeapBuffer", "dealloc", "HeapBuffer.dealloc_body", False, {"ns": "HeapBuffer", "trust_sig": True, "self_ty": "HeapBuffer"}),
     ("repr/heap_buffer.rs", "impl HeapBuffer", "realloc", "HeapBuffer.realloc_body", False, {"ns": "HeapBuffer", "trust_sig": True, "self_ty": "HeapBuffer"}),
+    ("repr/inline_buffer.rs", "impl InlineBuffer", "new", "InlineBuffer.new_body", False, {"ns": "InlineBuffer", "trust_sig": True, "self_ty": "InlineBuffer"}),
+    ("repr/inline_buffer.rs", "impl InlineBuffer", "empty", "InlineBuffer.empty_body", False, {"ns": "InlineBuffer", "trust_sig": True, "self_ty": "InlineBuffer"}),
+    ("repr/inline_buffer.rs", "impl InlineBuffer", "set_len", "InlineBuffer.set_len_body", False, {"ns": "InlineBuffer", "trust_sig": True, "self_ty": "InlineBuffer"}),
+    ("repr/static_buffer.rs", "impl StaticBuffer", "new", "StaticBuffer.new_body", False, {"ns": "StaticBuffer", "trust_sig": True, "self_ty": "StaticBuffer"}),
+    ("repr/static_buffer.rs", "impl StaticBuffer", "len", "StaticBuffer.len_body", False, {"ns": "StaticBuffer", "trust_sig": True, "self_ty": "StaticBuffer"}),
+    ("repr/static_buffer.rs", "impl StaticBuffer", "set_len", "StaticBuffer.set_len_body", False, {"ns": "StaticBuffer", "trust_sig": True, "self_ty": "StaticBuffer"}),
+    ("repr.rs", "impl Repr", "last_byte", "Repr.last_byte_body", False),
+    ("repr.rs", "impl Repr", "len", "Repr.len_body", False),
+    ("repr.rs", "impl Repr", "is_empty", "Repr.is_empty_body", False),
+    ("repr.rs", "impl Repr", "as_bytes", "Repr.as_bytes_body", False, {"trust_sig": True}),
+    ("repr.rs", "impl Repr", "as_str", "Repr.as_str_body", False),
+    ("repr.rs", "impl Repr", "as_slice_mut", "Repr.as_slice_mut_body", False, {"trust_sig": True}),
+    ("repr.rs", "impl Repr", "as_str_mut", "Repr.as_str_mut_body", False, {"trust_sig": True}),
+    ("repr.rs", "impl Repr", "from_char", "Repr.from_char", False),
+    ("repr.rs", "impl Repr", "from_bool", "Repr.from_bool", False),
     ("repr.rs", "impl Repr", "new", "Repr.new", False),
     ("repr.rs", "impl Repr", "from_str", "Repr.from_str", False),
     ("repr.rs", "impl Repr", "with_capacity", "Repr.with_capacity", False),
@@ -1061,6 +1151,13 @@ SIGS = {
     "HeapBuffer.with_additional_body": ([("text", "Str"), ("additional", "Nat")], "Rs HeapBuf"),
     "HeapBuffer.allocation_body": ([], "RawPtrV"), "HeapBuffer.capacity_body": ([], "Nat"), "HeapBuffer.is_unique_body": ([], "Bool"),
     "HeapBuffer.dealloc_body": ([], "Unit"), "HeapBuffer.realloc_body": ([("new_capacity", "Nat")], "Rs Unit"),
+    "InlineBuffer.new_body": ([("text", "Str")], "InlineBuf"), "InlineBuffer.empty_body": ([], "InlineBuf"),
+    "InlineBuffer.set_len_body": ([("len", "Nat")], "Unit"),
+    "StaticBuffer.new_body": ([("text", "SStr")], "Rs StaticBuf"), "StaticBuffer.len_body": ([], "Nat"),
+    "StaticBuffer.set_len_body": ([("len", "Nat")], "Unit"),
+    "Repr.last_byte_body": ([], "Nat"), "Repr.len_body": ([], "Nat"), "Repr.is_empty_body": ([], "Bool"),
+    "Repr.as_bytes_body": ([], "RawSlice"), "Repr.as_str_body": ([], "Str"), "Repr.as_slice_mut_body": ([], "SliceMut"),
+    "Repr.as_str_mut_body": ([], "SliceMut"), "Repr.from_char": ([("ch", "Chr")], "Handle"), "Repr.from_bool": ([("b", "Bool")], "Handle"),
     "Repr.new": ([], "Handle"), "Repr.from_str": ([("text", "Str")], "Rs Handle"),
     "Repr.with_capacity": ([("capacity", "Nat")], "Rs Handle"), "Repr.from_static_str": ([("text", "SStr")], "Rs Handle"), "Repr.capacity": ([], "Nat"), "Repr.is_unique": ([], "Bool"),
     "Repr.replace_inner": ([("other", "Handle")], "Unit"), "Repr.set_len": ([("new_len", "Nat")], "Unit"),
@@ -1164,7 +1261,7 @@ def emit(defs):
     return hdr + "\n".join(defs) + "\nend LS.GenRepr\n"
 
 def main():
-    srcs = {f: open(os.path.join(REPO, f)).read() for f in ("repr.rs", "lib.rs", "repr/heap_buffer.rs")}
+    srcs = {f: open(os.path.join(REPO, f)).read() for f in ("repr.rs", "lib.rs", "repr/heap_buffer.rs", "repr/inline_buffer.rs", "repr/static_buffer.rs")}
     generated = {t[3] for t in TARGETS if not t[3].endswith("_body")}
     cache, defs, status = {}, {}, {}
     for tgt in TARGETS:
